@@ -327,7 +327,7 @@ package engine
 //@ func (m FileMatcher) Match(file, d) (d1, ok)
 //@   requires file != nil && file.Name != nil && d != nil && m.NodeMatcher != nil
 //@   requires typing: forall i int {file.Imports[i]} :: 0 <= i && i < len(file.Imports) ==> file.Imports[i] != nil && file.Imports[i].Path != nil && unquoteOK(file.Imports[i].Path.Value)
-//@   ensures [C10] package-guard: m.Package != "" && m.Package != file.Name.Name ==> !ok
+//@   ensures [C05,C10] package-guard: m.Package != "" && m.Package != file.Name.Name ==> !ok
 //@   ensures [C10] imports-guard: !imsOK(m.Imports, file, dmap(d)) ==> !ok
 //@   ensures [C03] recorded-match-data-is-wellformed: ok ==> wfFileMatch(dmap(d1)[boxed(global("github.com/uber-go/gopatch/internal/engine.fileMatchKey"))])
 //@   ensures [C03,C09] the-matched-file-is-recorded: ok ==> matchedFile(dmap(d1)) == file
